@@ -918,27 +918,6 @@ impl<T: Serialize + for<'de> Deserialize<'de> + Clone + PartialEq + Send + Sync 
         for snapshot_path in snapshots.iter().rev() {
             match self.load_snapshot(snapshot_path).await {
                 Ok((header, loaded_state)) => {
-                    // Verify checksum
-                    let data = postcard::to_stdvec(&loaded_state).map_err(|e| {
-                        P2PError::Storage(StorageError::Database(
-                            format!("Failed to serialize for checksum: {e}").into(),
-                        ))
-                    })?;
-
-                    let mut hasher = Sha256::new();
-                    hasher.update(&data);
-                    let checksum: [u8; 32] = hasher.finalize().into();
-
-                    if checksum != header.checksum {
-                        stats.corruption_events.push(CorruptionEvent {
-                            file_path: snapshot_path.clone(),
-                            corruption_type: CorruptionType::ChecksumMismatch,
-                            offset: 0,
-                            recovery_action: RecoveryAction::Skipped,
-                        });
-                        continue;
-                    }
-
                     // Load state
                     {
                         let mut current_state = self.state.write().map_err(|_| {
@@ -964,10 +943,16 @@ impl<T: Serialize + for<'de> Deserialize<'de> + Clone + PartialEq + Send + Sync 
 
                     return Ok(());
                 }
-                Err(_) => {
+                Err(e) => {
+                    let corruption_type = match e {
+                        P2PError::Storage(StorageError::CorruptionDetected(_)) => {
+                            CorruptionType::ChecksumMismatch
+                        }
+                        _ => CorruptionType::InvalidFormat,
+                    };
                     stats.corruption_events.push(CorruptionEvent {
                         file_path: snapshot_path.clone(),
-                        corruption_type: CorruptionType::InvalidFormat,
+                        corruption_type,
                         offset: 0,
                         recovery_action: RecoveryAction::Skipped,
                     });
@@ -1239,6 +1224,10 @@ impl<T: Serialize + for<'de> Deserialize<'de> + Clone + PartialEq + Send + Sync 
     }
 
     /// Load snapshot from file
+    ///
+    /// The checksum in the header covers the serialised bytes as written. It is
+    /// verified here against the bytes read: re-serialising the decoded `HashMap`
+    /// yields a different byte order for any map with more than one entry.
     async fn load_snapshot(&self, path: &Path) -> Result<(SnapshotHeader, HashMap<String, T>)> {
         let mut file = File::open(path).map_err(|e| {
             P2PError::Storage(StorageError::Database(
@@ -1277,6 +1266,17 @@ impl<T: Serialize + for<'de> Deserialize<'de> + Clone + PartialEq + Send + Sync 
                 format!("Failed to read snapshot data: {e}").into(),
             ))
         })?;
+
+        let mut hasher = Sha256::new();
+        hasher.update(&snapshot_data);
+        let checksum: [u8; 32] = hasher.finalize().into();
+        if checksum != header.checksum {
+            return Err(P2PError::Storage(
+                crate::error::StorageError::CorruptionDetected(
+                    "Snapshot checksum mismatch".to_string().into(),
+                ),
+            ));
+        }
 
         // Deserialize state
         let state: HashMap<String, T> = postcard::from_bytes(&snapshot_data).map_err(|e| {
@@ -1492,26 +1492,8 @@ impl<T: Serialize + for<'de> Deserialize<'de> + Clone + PartialEq + Send + Sync 
 
     /// Verify snapshot integrity
     async fn verify_snapshot_integrity(&self, path: &Path) -> Result<()> {
-        let (header, state) = self.load_snapshot(path).await?;
-
-        // Verify checksum
-        let data = postcard::to_stdvec(&state).map_err(|e| {
-            P2PError::Storage(StorageError::Database(
-                format!("Failed to serialize for checksum: {e}").into(),
-            ))
-        })?;
-
-        let mut hasher = Sha256::new();
-        hasher.update(&data);
-        let checksum: [u8; 32] = hasher.finalize().into();
-
-        if checksum != header.checksum {
-            return Err(P2PError::Storage(
-                crate::error::StorageError::CorruptionDetected(
-                    "Snapshot checksum mismatch".to_string().into(),
-                ),
-            ));
-        }
+        // load_snapshot verifies the checksum against the bytes on disk
+        self.load_snapshot(path).await?;
 
         Ok(())
     }
